@@ -212,6 +212,12 @@ class Checker:
         """
         finfo = self.fileinfo
 
+        # a single file v2 torrent has no length key, only a one leaf tree
+        tree = self.info.get("file tree", {})
+        if ("length" not in self.info and "files" not in self.info
+                and list(tree) == [self.name] and "" in tree[self.name]):
+            self.info["length"] = tree[self.name][""]["length"]
+
         if "length" in self.info:
             self.log_msg("%s points to a single file", self.root)
             self.total = self.info["length"]
